@@ -779,6 +779,31 @@ def execute(prop, scen):
         r_ = _random.Random(scen.get("variant_seed", 0))
         alts = [(k_, v_) for k_, vals in sorted(table_.get(scen["name"], {}).items())
                 for v_ in vals if v_ != scen["params"].get(k_)]
+        if scen["name"] == "ColumnEnsembleClassifier" and not res.violations:
+            # the whole list of (name, estimator, columns) replaced with set_params, then fitted
+            # again: the ensemble is the NEW estimators on the NEW columns
+            try:
+                from sktime.classification.interval_based import TimeSeriesForestClassifier
+                new_list = lambda: [  # noqa
+                    ("x", TimeSeriesForestClassifier(n_estimators=4, n_jobs=scen["n_jobs"],
+                                                     random_state=scen["random_state"] + 5), [1]),
+                    ("y", TimeSeriesForestClassifier(n_estimators=2, n_jobs=scen["n_jobs"],
+                                                     random_state=scen["random_state"] + 6), [0])]
+                fresh = type(est)(estimators=new_list())
+                probe_c = [c_ for c_ in scen["calls"] if c_["m"] != "interlope"][0]
+                with sched.scenario_schedule(sched.Scheduler("fifo", 0)):
+                    est.set_params(estimators=new_list())
+                    fit(est, train())
+                    fit(fresh, train())
+                    r1 = do_call(est, probe_c, call_args(probe_c))
+                    r2 = do_call(fresh, probe_c, call_args(probe_c))
+                res.probe("reconfigured_refit_compared_with_fresh")
+                if not deep_equal(r1, r2):
+                    v("refit_differs_from_fresh", "after set_params(estimators=<new list>) and a second "
+                      "fit %s returns %s, a fresh ensemble built with that list returns %s" % (
+                          probe_c["m"], _short(r1), _short(r2)), method=probe_c["m"], reconfigured=True)
+            except Exception as e:  # noqa
+                digest.update(("reconf_ce:%s" % type(e).__name__).encode())
         if alts:
             k_, v_ = alts[r_.randrange(len(alts))]
             try:
